@@ -199,8 +199,8 @@ def run(ck):
     writers = c15.who_writes(f, DECAPS, ['last_label'])['last_label']
     allowed = {'new', 'reset_last_label', 'decap', 'decap_complete', 'decap_first', 'decap_intermediate', 'decap_end'}
     for fn in writers:
-        if short(fn) not in allowed:
-            ck.finding('C04.R6', fn, 'writes:last_label', f"{short(fn)} writes Decapsulator.last_label; not one of the reviewed writers")
+        if short(fn) not in allowed and f.body(fn).public:
+            ck.finding('C04.R6', fn, 'writes:last_label', f"public function {short(fn)} writes Decapsulator.last_label; not one of the reviewed entry points")
     ck.rule('C04.R6 writers of Decapsulator.last_label', len(writers), 5)
     # R7: both resets
     for key, idx in ((ENC + 'reset_last_label', c.i_last), (DEC + 'reset_last_label', i_dlast)):
